@@ -26,6 +26,7 @@ import (
 type structEncoder struct {
 	fields   []FieldAccessor
 	metadata []byte
+	sync.RWMutex
 }
 
 func (valenc *structEncoder) Encode(enc *Encoder, v interface{}) {
@@ -33,7 +34,10 @@ func (valenc *structEncoder) Encode(enc *Encoder, v interface{}) {
 }
 
 func (valenc *structEncoder) Write(enc *Encoder, v interface{}) {
+	valenc.RLock()
 	fields := valenc.fields
+	metadata := valenc.metadata
+	valenc.RUnlock()
 	n := len(fields)
 	t := reflect.TypeOf(v)
 	st := t
@@ -44,7 +48,7 @@ func (valenc *structEncoder) Write(enc *Encoder, v interface{}) {
 	}
 	var r = enc.WriteStructType(st, func() {
 		enc.AddReferenceCount(n)
-		enc.buf = append(enc.buf, valenc.metadata...)
+		enc.buf = append(enc.buf, metadata...)
 	})
 	enc.SetReference(v)
 	p := reflect2.PtrOf(v)
@@ -84,6 +88,8 @@ func getNamedStructEncoder(t reflect.Type) ValueEncoder {
 
 func newNamedStructEncoder(t reflect.Type, name string, tag ...string) *structEncoder {
 	encoder := &structEncoder{}
+	encoder.Lock()
+	defer encoder.Unlock()
 	registerNamedStructEncoder(t, encoder)
 	verifYield("structenc.published", t)
 	fields := getFields(t, tag...)
